@@ -378,7 +378,7 @@ func TestVerifC41Delivery(t *testing.T) {
 	r.SetRule("One case = one fresh delivery.Runtime with a gated presence resolver that reports every recipient offline; 2-8 producers enqueue durable plans (PRNG targets/recipients, unique message ids, bounded queue so Enqueue can block); at a PRNG instant of the enqueue counter a controller runs one scenario (Quiesce ample / expired+cancelled+ample / short deadline+ample, Stop ample / expired+ample, Quiesce expired then Stop) and always finishes with Stop(ample). Non-trivial = a plan was accepted before the fence, an Enqueue was rejected after it, and a lifecycle call returned while accepted plans were unprocessed (returned a context error, or was invoked with gated work). Distinct = (scenario, producers, workers, queue bucket, gate mode, log2 accepted / rejected).")
 	r.Assume("Stop with an expired deadline cancels accepted plans by documented design (runtime.go runWorker comment, FLOW.md step 8); the third clause of C41 is asserted for Quiesce only.")
 
-	nRuns := r.N(350, 5000)
+	nRuns := r.N(350, 6500)
 	for i := 0; i < nRuns; i++ {
 		if r.Skip(i) {
 			continue
